@@ -24,6 +24,7 @@ import (
 	"sync"
 	"sync/atomic"
 	"time"
+	"unsafe"
 )
 
 // ---------------------------------------------------------------------------------------------
@@ -73,6 +74,7 @@ type Thread struct {
 	exiting bool
 	started bool
 	nspawn  int
+	clk     VC // happens-before vector clock (hb.go)
 }
 
 // Op describes what a thread is about to do; Enabled is evaluated without side effects.
@@ -139,6 +141,14 @@ type Sched struct {
 	// PrefixDesc, when non-nil, holds for each prefix position the option list recorded by the
 	// execution that generated the prefix; a mismatch while replaying is a divergence.
 	PrefixOpts [][]string
+
+	// happens-before race detection (hb.go)
+	Races    []RaceObs
+	MemPoint func(site string) bool // sites at which an access is also a scheduling point (known racy sites)
+	chanHB   map[uintptr]*chanHB
+	shadow   map[unsafe.Pointer]*shadow
+	raceSeen map[string]bool
+	noRace   int
 }
 
 type slot struct {
@@ -509,6 +519,9 @@ func Go(name string, fn func()) {
 	par := s.cur
 	par.nspawn++
 	t := s.newThread(fmt.Sprintf("%s#%d.%d", name, par.ID, par.nspawn))
+	par.tick()
+	t.clk = append(VC{}, par.clk...)
+	par.tick()
 	s.exitWG.Add(1)
 	go s.root(t, fn, false)
 	Yield(&Op{Kind: "go", Desc: name})
@@ -521,6 +534,11 @@ func Spawn(name string, fn func()) *Thread {
 		panic("vrt.Spawn outside controlled mode")
 	}
 	t := s.newThread(name)
+	if s.cur != nil {
+		s.cur.tick()
+		t.clk = append(VC{}, s.cur.clk...)
+		s.cur.tick()
+	}
 	s.exitWG.Add(1)
 	go s.root(t, fn, false)
 	return t
@@ -536,11 +554,14 @@ func Join(ts ...*Thread) {
 		}
 		return true
 	}})
+	hbBarrier(ts)
 }
 
 // Quiesce blocks until no other thread can run (and no timer will fire by itself).
 func Quiesce() {
 	Yield(&Op{Kind: "quiesce", Low: true})
+	// no happens-before edge: a quiet system is an observation of the scheduler, not a synchronisation the
+	// code performs (a real client calling at this moment is not ordered after the background goroutines)
 }
 
 // Atomic runs fn without scheduling points (the harness's observation of "the state at this instant").
@@ -628,6 +649,12 @@ func sendReady(v reflect.Value) bool {
 }
 
 func doRecv(v reflect.Value) (reflect.Value, bool) {
+	x, ok := doRecv0(v)
+	hbRecv(v.Pointer(), ok)
+	return x, ok
+}
+
+func doRecv0(v reflect.Value) (reflect.Value, bool) {
 	if v.Len() > 0 {
 		return v.Recv()
 	}
@@ -641,8 +668,10 @@ func doRecv(v reflect.Value) (reflect.Value, bool) {
 }
 
 func doSend(v reflect.Value, x reflect.Value) {
+	hbSend(v.Pointer())
 	if v.Cap() > 0 {
 		v.Send(x) // cannot block: len<cap checked and we hold the token
+		hbSendDone(v.Pointer())
 		return
 	}
 	s := S
@@ -656,6 +685,7 @@ func doSend(v reflect.Value, x reflect.Value) {
 	Yield(&Op{Kind: "chan-send-wait", Shared: true, Enabled: func() bool { return sl.taken }})
 	sl.full, sl.taken = false, false
 	sl.val = reflect.Value{}
+	hbSendDone(v.Pointer())
 }
 
 func Send[T any](ch chan<- T, v T) {
@@ -672,7 +702,9 @@ func Send[T any](ch chan<- T, v T) {
 	rv := reflect.ValueOf(ch)
 	Yield(&Op{Kind: "chan-send", Shared: true, Enabled: func() bool { return sendReady(rv) }})
 	if rv.Cap() > 0 {
+		hbSend(rv.Pointer())
 		ch <- v
+		hbSendDone(rv.Pointer())
 		return
 	}
 	doSend(rv, reflect.ValueOf(&v).Elem())
@@ -708,6 +740,7 @@ func Recv2[T any](ch <-chan T) (T, bool) {
 func Close[T any](ch chan<- T) {
 	if S != nil {
 		Yield(&Op{Kind: "chan-close", Shared: true})
+		hbClose(reflect.ValueOf(ch).Pointer())
 	}
 	close(ch)
 }
